@@ -23,6 +23,9 @@ pub enum Family {
     AbortOffered,
     /// multi-output renames + absence + interruption
     Rename,
+    /// ephemeral chains whose final consumers have a second, failing upstream: the chain is re-executed
+    /// (changed outputs) while the consumer is upstream-failed, then evaluated again
+    EphFail,
 }
 impl Family {
     pub fn parse(s: &str) -> Family {
@@ -34,6 +37,7 @@ impl Family {
             "latefail" => Family::LateFail,
             "abortoffered" => Family::AbortOffered,
             "rename" => Family::Rename,
+            "ephfail" => Family::EphFail,
             _ => panic!("unknown family {}", s),
         }
     }
@@ -46,6 +50,7 @@ impl Family {
             Family::LateFail => "latefail",
             Family::AbortOffered => "abortoffered",
             Family::Rename => "rename",
+            Family::EphFail => "ephfail",
         }
     }
 }
@@ -115,6 +120,8 @@ pub struct Project {
     pub next_rank: u32,
     pub stamp: u64,
     pub conv: Conv,
+    /// jobs whose last attempt failed or was cut short by an abort while running
+    pub tainted: BTreeSet<String>,
 }
 
 fn rand_kind(rng: &mut Rng) -> JobKind {
@@ -135,6 +142,7 @@ impl Project {
             next_rank: 0,
             stamp: 0,
             conv,
+            tainted: BTreeSet::new(),
         };
         p.g.edge_order_seed = edge_order_seed;
         p
@@ -142,13 +150,15 @@ impl Project {
     pub fn new(rng: &mut Rng, cfg: &ChainCfg) -> Project {
         let mut p = Project::empty(cfg.conv, rng.next());
         match cfg.family {
-            Family::EphChain => p.motif_ephchain(rng),
+            Family::EphChain => p.motif_ephchain(rng, false),
+            Family::EphFail => p.motif_ephchain(rng, true),
             Family::ValidatedEph => p.motif_validated_eph(rng),
             Family::LateFail => p.motif_latefail(rng),
             _ => {}
         }
         let extra = match cfg.family {
             Family::Random | Family::FailHist | Family::AbortOffered | Family::Rename => 1 + rng.below(cfg.maxn),
+            Family::EphFail => rng.below(3),
             _ => rng.below(4),
         };
         let dens = [0.2, 0.35, 0.5, 0.7][rng.below(4)];
@@ -194,7 +204,7 @@ impl Project {
         [1, 2, 3, 1000][rng.below(4)]
     }
     /// E1 -> E2 -> ... -> Ek -> O ; E_i -> P_i (sibling outputs) ; A (Always) -> O or -> E_k
-    fn motif_ephchain(&mut self, rng: &mut Rng) {
+    fn motif_ephchain(&mut self, rng: &mut Rng, with_failing_sibling: bool) {
         let depth = 2 + rng.below(3);
         let a = self.add_fixed(rng, JobKind::Always, &[], 1000);
         let head_from_always = rng.chance(0.3);
@@ -221,7 +231,12 @@ impl Project {
         let a2 = if rng.chance(0.5) { a.clone() } else { self.add_fixed(rng, JobKind::Always, &[], 1000) };
         let last = chain.last().unwrap().clone();
         let kind = if rng.chance(0.8) { JobKind::Output } else { JobKind::Ephemeral };
-        let o = self.add_fixed(rng, kind, &[last.as_str(), a2.as_str()], 1000);
+        let f = if with_failing_sibling { Some(self.add_fixed(rng, JobKind::Output, &[], 1000)) } else { None };
+        let mut oc = vec![last.as_str(), a2.as_str()];
+        if let Some(f) = &f {
+            oc.push(f.as_str());
+        }
+        let o = self.add_fixed(rng, kind, &oc, 1000);
         if kind == JobKind::Ephemeral {
             self.add_fixed(rng, JobKind::Output, &[o.as_str()], 1000);
         }
@@ -253,24 +268,45 @@ impl Project {
             }
         }
     }
-    /// E -> O -> X (Always/Output), E -> Y (Always), variants
+    /// A validated Output O is skipped early (its other upstream R is done) while its validated
+    /// Ephemeral upstream E is still undecided; E is needed by Z and may fail late. Below O: a mix of
+    /// Outputs / Ephemerals / Always jobs, some with a second, slow input K.
     fn motif_latefail(&mut self, rng: &mut Rng) {
-        let pre = if rng.chance(0.5) { Some(self.add_fixed(rng, JobKind::Always, &[], 1000)) } else { None };
+        let pk = if rng.chance(0.5) { JobKind::Output } else { JobKind::Always };
+        let pre = if rng.chance(0.6) { Some(self.add_fixed(rng, pk, &[], 1000)) } else { None };
         let cons: Vec<&str> = pre.iter().map(|x| x.as_str()).collect();
         let e = self.add_fixed(rng, JobKind::Ephemeral, &cons, 1000);
-        let o = self.add_fixed(rng, JobKind::Output, &[e.as_str()], 1000);
+        let r = if rng.chance(0.7) { Some(self.add_fixed(rng, JobKind::Output, &[], 1000)) } else { None };
+        let mut oc = vec![e.as_str()];
+        if let Some(r) = &r {
+            oc.push(r.as_str());
+        }
+        let o = self.add_fixed(rng, JobKind::Output, &oc, 1000);
+        // the consumer that makes E run: an Always job, or an Output (whose file will get deleted)
+        let zk = if rng.chance(0.5) { JobKind::Always } else { JobKind::Output };
+        self.add_fixed(rng, zk, &[e.as_str()], 1000);
         let k = 1 + rng.below(3);
         for _ in 0..k {
             let kind = rand_kind(rng);
-            let x = self.add_fixed(rng, kind, &[o.as_str()], 1000);
-            if kind == JobKind::Ephemeral {
-                self.add_fixed(rng, JobKind::Output, &[x.as_str()], 1000);
+            let sk = if rng.chance(0.5) { JobKind::Output } else { JobKind::Always };
+            let slow = if rng.chance(0.5) { Some(self.add_fixed(rng, sk, &[], 1000)) } else { None };
+            let mut xc = vec![o.as_str()];
+            if let Some(sl) = &slow {
+                xc.push(sl.as_str());
             }
-        }
-        self.add_fixed(rng, JobKind::Always, &[e.as_str()], 1000);
-        if rng.chance(0.5) {
-            let a = self.add_fixed(rng, JobKind::Always, &[], 1000);
-            self.add_fixed(rng, JobKind::Output, &[e.as_str(), a.as_str()], 1000);
+            let x = self.add_fixed(rng, kind, &xc, 1000);
+            if kind == JobKind::Ephemeral {
+                let y = self.add_fixed(rng, JobKind::Output, &[x.as_str()], 1000);
+                if rng.chance(0.4) {
+                    self.add_fixed(rng, JobKind::Output, &[y.as_str()], 1000);
+                }
+            } else if kind == JobKind::Output && rng.chance(0.5) {
+                let kk = rand_kind(rng);
+                let y = self.add_fixed(rng, kk, &[x.as_str()], 1000);
+                if kk == JobKind::Ephemeral {
+                    self.add_fixed(rng, JobKind::Output, &[y.as_str()], 1000);
+                }
+            }
         }
     }
     pub fn add_node(&mut self, rng: &mut Rng, dens: f64, kind: Option<JobKind>) {
@@ -328,7 +364,7 @@ impl Project {
     pub fn edit(&mut self, rng: &mut Rng, family: Family) -> Vec<String> {
         let mut desc = vec![];
         let nedits = match family {
-            Family::EphChain | Family::ValidatedEph | Family::LateFail => 1 + rng.below(2),
+            Family::EphChain | Family::ValidatedEph | Family::LateFail | Family::EphFail => 1 + rng.below(2),
             Family::Rename => 1 + rng.below(3),
             _ => rng.below(3),
         };
@@ -337,6 +373,7 @@ impl Project {
             // biased choice of the edit kind
             let kind = match family {
                 Family::EphChain => *rng.pick(&[0, 0, 0, 0, 2, 2, 3, 4, 5, 6, 7]),
+                Family::EphFail => *rng.pick(&[0, 0, 0, 0, 0, 2, 2, 2, 5]),
                 Family::ValidatedEph => *rng.pick(&[0, 0, 2, 2, 2, 2, 3, 3, 4, 4, 6, 7]),
                 Family::LateFail => *rng.pick(&[0, 0, 0, 2, 2, 5]),
                 Family::Rename => *rng.pick(&[0, 2, 3, 4, 6, 7, 8, 8, 8, 9, 9, 9]),
@@ -471,6 +508,7 @@ pub fn random_plan(rng: &mut Rng, g: &Graph, family: Family, step: usize) -> Pla
         Family::AbortOffered => (0.2, 0.25, 0.6),
         Family::Rename => (0.4, 0.3, 0.25),
         Family::EphChain => (0.25, 0.2, 0.15),
+        Family::EphFail => (0.6, 0.2, 0.15),
         Family::Random => (0.4, 0.25, 0.2),
     };
     if rng.chance(pf) {
@@ -604,26 +642,31 @@ pub fn judge_offline(g: &Graph, h_in: &History, disk_after: &BTreeMap<String, St
             viols.push(mk("C03", "skipped-but-stale", format!("{}", kc(&n.id)), format!("{} skipped ({}) but not up to date", n.id, rep.state_str(&n.id))));
         }
     }
-    // ---- C07 offline (failures only): pending jobs below a failed job end upstream-failed
+    // ---- C07 offline (failures only): every never-started job directly below a failed /
+    // upstream-failed job is reported upstream-failed, not succeeded or skipped
+    // (exempt: Ephemerals on which only Ephemerals depend)
     if !rep.aborted && !rep.failed.is_empty() {
         for n in &g.nodes {
             let j = &n.id;
-            if started.contains(j) || rep.first_offer.contains_key(j) || rep.upstream_failed.contains(j) {
+            if started.contains(j) || rep.upstream_failed.contains(j) {
                 continue;
             }
             if g.useless_ephemeral(j) {
                 continue;
             }
             for e in g.ups(j) {
-                if let Some(b) = rep.bad_since.get(&e.up) {
-                    let pending_then = match rep.finished_since.get(j) {
-                        None => true,
-                        Some(f) => f >= b,
+                if rep.failed_q.contains(&e.up) || rep.upstream_failed.contains(&e.up) {
+                    let skipped_before = match (rep.finished_since.get(j), rep.bad_since.get(&e.up)) {
+                        (Some(f), Some(b)) => f < b,
+                        _ => false,
                     };
-                    if pending_then {
-                        viols.push(mk("C07", "blocked-job-not-upstream-failed", format!("{}:{}", kc(j), rep.disposition(j)), format!("{} was pending when its upstream {} became failed/upstream-failed, but ends as {} ({})", j, e.up, rep.disposition(j), rep.state_str(j))));
-                        break;
-                    }
+                    viols.push(mk(
+                        "C07",
+                        "blocked-job-not-upstream-failed",
+                        format!("{}:{}:{}", kc(j), rep.disposition(j), if skipped_before { "decided-before-the-failure" } else { "pending-at-the-failure" }),
+                        format!("{} was never started and its direct upstream {} ended failed/upstream-failed, but {} ends as {} ({})", j, e.up, j, rep.disposition(j), rep.state_str(j)),
+                    ));
+                    break;
                 }
             }
         }
@@ -633,10 +676,22 @@ pub fn judge_offline(g: &Graph, h_in: &History, disk_after: &BTreeMap<String, St
         if hout.contains_key(j) || hout.contains_key(&format!("{}!!!", j)) {
             viols.push(mk("C08", "failed-job-has-records", format!("{}:{}", kc(j), rep.disposition(j)), format!("failed/aborted-while-running {} has own records in the returned history", j)));
         }
-        for e in g.ups(j) {
-            let k = format!("{}!!!{}", e.up, j);
-            if hout.get(&k) != h_in.get(&k) {
-                viols.push(mk("C08", "failed-job-edge-record-changed", format!("{}:{}", kc(j), rep.disposition(j)), format!("per-dependency record {} of failed job changed: {:?} -> {:?}", k, h_in.get(&k), hout.get(&k))));
+        // every record "<x>!!!j" - also under historical / absent upstream ids - is exactly as before;
+        // only the record of a dependency between two present jobs that was removed may be dropped (C18)
+        let suffix = format!("!!!{}", j);
+        let mut keys: BTreeSet<&String> = h_in.keys().filter(|k| k.ends_with(&suffix) && k.len() > suffix.len()).collect();
+        keys.extend(hout.keys().filter(|k| k.ends_with(&suffix) && k.len() > suffix.len()));
+        for k in keys {
+            let x = &k[..k.len() - suffix.len()];
+            if x.contains("!!!") {
+                continue;
+            }
+            let removed_dep = g.node(x).is_some() && !g.has_edge(x, j);
+            if removed_dep && !hout.contains_key(k) {
+                continue;
+            }
+            if hout.get(k) != h_in.get(k) {
+                viols.push(mk("C08", "failed-job-edge-record-changed", format!("{}:{}:{}", kc(j), rep.disposition(j), if g.node(x).is_some() { "present-upstream" } else { "historical-upstream-id" }), format!("per-dependency record {} of the failed job changed: {:?} -> {:?}", k, h_in.get(k), hout.get(k))));
             }
         }
         let had_all = h_in.contains_key(j) && h_in.contains_key(&format!("{}!!!", j)) && g.ups(j).iter().any(|e| h_in.contains_key(&format!("{}!!!{}", e.up, j)));
@@ -865,7 +920,7 @@ pub fn eval_step(p: &mut Project, cfg: &ChainCfg, seed: u64, step: usize, edits:
     {
         plan.misuse = cfg.misuse.clone();
         let disk_before = p.world.borrow().disk.clone();
-        let exp = expected(&p.g, &p.history, &disk_before, mode);
+        let exp = expected(&p.g, &p.history, &disk_before, mode, &p.tainted);
         if cfg.inject {
             // C16: change the payload of validated ephemerals that will be re-executed for a consumer
             plan.fail.clear();
@@ -1227,6 +1282,14 @@ pub fn eval_step(p: &mut Project, cfg: &ChainCfg, seed: u64, step: usize, edits:
                 for (v, tag) in &all_viols {
                     println!("seed {} step {} {} {} [{}] {}", seed, step, v.prop, v.sig, tag, v.detail.chars().take(300).collect::<String>());
                 }
+            }
+        }
+        for j in rep.failed.iter().chain(rep.running_at_abort.iter()) {
+            p.tainted.insert(j.clone());
+        }
+        for j in rep.succeeded.keys() {
+            if !rep.failed.contains(j) {
+                p.tainted.remove(j);
             }
         }
         match rep.history_out {
